@@ -73,6 +73,37 @@ def _standin(rep, tier, seed, only_search=False):
         distinct.add((cfg["kclass"], cfg["weight"], skew, form))
         if only_search and not ok:
             return
+    # all scales: the same picture (ranges, pixel size, diagram, kernel widths) at length scales 1e-4 and 1e3 - variances scale with
+    # the square, so tiny pictures have variances around 1e-9: still an anisotropic / correlated kernel, not an isotropic one
+    for it in range(16 if tier == "quick" else 300):
+        cfg = ic.rand_cfg(rng)
+        if cfg["kernel"] != "gaussian" or cfg["kclass"] in ("scalar", "iso"):
+            continue
+        c = rng.choice([1e-4, 1e-5, 1e-6, 1e3])
+        dgm = ic.rand_dgm(rng, rng.randint(1, 3), cfg, outside=False)
+        sc = dict(cfg)
+        sc["birth_range"] = tuple(c * x for x in cfg["birth_range"])
+        sc["pers_range"] = tuple(c * x for x in cfg["pers_range"])
+        sc["pixel_size"] = c * cfg["pixel_size"]
+        sc["kernel_params"] = {"sigma": [[c * c * v for v in row] for row in cfg["kernel_params"]["sigma"]]}
+        if cfg["weight"] == "linear_ramp":
+            sc["weight_params"] = dict(cfg["weight_params"], start=c * cfg["weight_params"]["start"], end=c * cfg["weight_params"]["end"])
+        else:
+            sc["weight_params"] = {"n": 1.0}
+            cfg = dict(cfg, weight_params={"n": 1.0})
+        sdgm = [[c * b, c * d] for b, d in dgm]
+        pi0, pi1 = ic.make_imager(cfg), ic.make_imager(sc)
+        if tuple(pi0.resolution) != tuple(pi1.resolution):
+            continue
+        base, scaled = ic.transform(pi0, dgm), ic.transform(pi1, sdgm)
+        wfac = c if cfg["weight"] == "persistence" else 1.0
+        evals += 1
+        distinct.add(("scaled-picture", cfg["kclass"], cfg["weight"], c))
+        if base.shape != scaled.shape or float(np.max(np.abs(scaled - wfac * base))) > 1e-6 * max(1e-300, float(np.max(np.abs(wfac * base)))) + 1e-12 * wfac:
+            rep.violation("the same picture at length scale %r: pixels %s, expected %s times the pixels at scale 1 (kernel %s, weight %s)" % (c, np.round(scaled, 12).tolist(), wfac, cfg["kclass"], cfg["weight"]),
+                          "image:scale-covariance:%s" % cfg["kclass"], {"input": {"config": cfg, "diagram": dgm, "scale": c}})
+            if only_search:
+                return
     # the same statement through fit_transform (both coordinate conventions): the imaged region is learned from the diagram, the
     # pixels are the weighted kernel mass on that region
     for it in range(12 if tier == "quick" else 300):
